@@ -586,7 +586,12 @@ def r7(repo, run):
     enc_rets = {p.ret.text for p in tr.paths_of(repo, enc, follow_exceptions=False) if p.status == 'return' and p.ret is not None}
     dec_loads = {e.args[0].text for p in tr.paths_of(repo, dec, follow_exceptions=False) for e in p.events if e.kind == 'call' and e.callee == 'pickle.loads' and e.args}
     prm_e, prm_d = enc.params()[0], dec.params()[0]
-    if enc_rets != {'pickle.dumps(%s).hex()' % prm_e} or dec_loads != {'bytes.fromhex(%s)' % prm_d}:
+    import re as _re
+    enc_ok = bool(enc_rets) and all(_re.fullmatch(r'pickle\.dumps\(%s(, (protocol=)?[\w.]+)?\)\.hex\(\)' % _re.escape(prm_e), t) for t in enc_rets)      # (any pickle protocol loads back)
+    dec_ok = dec_loads == {'bytes.fromhex(%s)' % prm_d}
+    if not (enc_ok and dec_ok) and all('pickle.dumps(' in t and '.hex()' in t for t in enc_rets) and all('bytes.fromhex(' in t for t in dec_loads) and enc_rets and dec_loads:
+        raise AnalysisError('metadata encoder / decoder use pickle + hex but in a form that is not recognised (%s / %s)' % (sorted(enc_rets)[:1], sorted(dec_loads)[:1]))
+    if not (enc_ok and dec_ok):
         run.violation('C01.R7', enc, 'encode: %s; decode: pickle.loads(%s)' % (sorted(enc_rets)[:2], sorted(dec_loads)[:2]), 'metadata encoder and decoder are not the inverse pair pickle.dumps(..).hex() / pickle.loads(bytes.fromhex(..))')
     else:
         run.ok('C01.R7', enc, 'encode: pickle.dumps(m).hex(); decode: pickle.loads(bytes.fromhex(s))', 'inverse pair')
